@@ -180,7 +180,9 @@ OPS_A = {   # property -> (invariants of spec/GFIOps.tla, quick program set, tho
     "C05": (["Consistent", "RefinesLaws"], ["SChain", "MskD", "SwSame"], ["D0", "SChain", "MskD", "Msk", "SwSame", "SwXY", "SSw", "MskSw"]),
     "C06": (["UndoRestores"], ["MskD", "SwSame"], ["D0", "SChain", "MskD", "Msk", "SwSame", "SwXY", "SSw", "MskSw"]),
     "C14": (["Consistent", "RefinesLaws", "UndoRestores"], ["MskD"], ["MskD", "Msk", "MskSw"]),
+    "C11": (["Consistent", "RefinesLaws", "UndoRestores"], ["VmD"], ["VmD", "Rep3"]),   # elementwise vmap/repeat rules, PV {0,1}
 }
+OPS_PV = {"C11": "{0, 1}"}
 
 
 def ops_a(prop_id, wd, tier, rep):
@@ -195,7 +197,7 @@ def ops_a(prop_id, wd, tier, rep):
     def run(tag, mask_after, switch_zero, expect_ok):
         with open(os.path.join(wd, f"MCops_{tag}.tla"), "w") as f:
             f.write(f"---- MODULE MCops_{tag} ----\nEXTENDS GFIOps\ncProgs == {{" + ", ".join(json.dumps(x) for x in progs) +
-                    "}\ncPV == {0, 2}\n====\n")
+                    "}\ncPV == " + OPS_PV.get(prop_id, "{0, 2}") + "\n====\n")
         with open(os.path.join(wd, f"MCops_{tag}.cfg"), "w") as f:
             f.write("CONSTANTS OpsProgs <- cProgs\n PV <- cPV\n" + f" MaskBwdAfter = {mask_after}\n SwitchBwdZero = {switch_zero}\nSPECIFICATION Spec\n" +
                     "".join(f"INVARIANT {i}\n" for i in (invs if expect_ok else ["RefinesLaws", "UndoRestores"])) + "CHECK_DEADLOCK FALSE\n")
@@ -204,7 +206,7 @@ def ops_a(prop_id, wd, tier, rep):
     res = run("ok", "FALSE", "FALSE", True)
     rep.add_tlc(res)
     info = {"module": "GFIOps", "invariants": invs, "programs": progs, "distinct_states": res.distinct, "result": "no invariant violated"}
-    if tier == "thorough":
+    if tier == "thorough" and prop_id != "C11":
         for tag, ma, sz in (("maskbwd", "TRUE", "FALSE"), ("switchbwd", "FALSE", "TRUE")):
             r = run(tag, ma, sz, False)
             if r.rc == 0:
